@@ -15,6 +15,7 @@ func init() {
 	fw.Register(&fw.Property{
 		ID:    "C10",
 		Level: "exploration",
+		Jitter: true,
 		Rule: "random references (90% A/C/G/T, 10% with IUPAC symbols) and alignments over the full alphabet (width 1-500, 1-40 rows) with ambiguity runs at either end, length-1 runs, runs separated by one base and all-ambiguous rows; model comparison plus reconstruction of every sequence from its observed row; " +
 			"non-trivial = the alignment has a SNP and an ambiguity run; distinct = (width class, rows, run-shape flags seen: run at start, run at end, single-column run, runs separated by one base, all-ambiguous row)",
 		Assumptions: []string{"with an ambiguous reference symbol 'equals the reference' is read as 'is one of the bases the reference symbol denotes'"},
@@ -96,10 +97,29 @@ func runC10(c *fw.Ctx, idx int) fw.Result {
 		ref = gen.Genome(r, W)
 	}
 	n := r.Range(1, 40)
+	if idx%25 == 7 {
+		n = r.Range(150, 400) // many rows: more than any fixed-size reorder window
+		if W > 120 {
+			W = r.Range(20, 120)
+			ref = ref[:W]
+		}
+	}
 	var recs []gen.FastaRec
 	for i := 0; i < n; i++ {
 		id, desc := gen.MakeHeader(r, i)
 		recs = append(recs, gen.FastaRec{ID: id, Desc: desc, Seq: ambigRunSeq(r, ref)})
+	}
+	if n >= 150 && r.Chance(0.5) {
+		// a slow first record: every column a SNP or an ambiguity run boundary
+		b := []byte(recs[0].Seq)
+		for i := range b {
+			if i%3 == 2 {
+				b[i] = 'N'
+			} else if model.IsACGT(ref[i]) {
+				b[i] = gen.OtherBase(r, model.Upper(ref[i]))
+			}
+		}
+		recs[0].Seq = string(b)
 	}
 	refText := gen.RefFasta("root", ref, gen.PickLineWidth(r, W))
 	aln := gen.RenderFasta(recs, gen.PickLineWidth(r, W))
